@@ -120,3 +120,28 @@ def obs_helpers(job: dict) -> Any:
     finally:
         loop.close()
     return out
+
+
+@register("serve_by_path")
+def obs_serve_by_path(job: dict) -> Any:
+    """obs_wire's `serve` observation, addressed: one probe entry (204, no content) shows which method sends to which
+    path; afterwards every serve entry is played only to the method(s) whose request path matches its `path_re`
+    (obs_wire.obs_serve with `only_methods`), so the number of calls is linear in the number of entries."""
+    import re
+
+    from harness.obs_wire import obs_serve
+
+    probe = obs_serve({**job, "serve": [{"sid": "__probe__", "status": 204, "ctype": "", "transport": "bundled"}], "only_methods": None})
+    paths: dict[str, list[str]] = {}
+    for rec in probe:
+        for s in rec["sent"]:
+            paths.setdefault(rec["method"], []).append(s["path"])
+    groups: dict[tuple, list[dict]] = {}
+    for e in job["serve"]:
+        ms = tuple(sorted(m for m, ps in paths.items() if any(re.fullmatch(e["path_re"], p) for p in ps))) if e.get("path_re") else tuple(sorted(paths))
+        groups.setdefault(ms, []).append(e)
+    out = []
+    for ms, entries in groups.items():
+        if ms:
+            out += obs_serve({**job, "serve": entries, "only_methods": list(ms)})
+    return out
